@@ -67,13 +67,17 @@ Lemma oracle_from_run c : forall s,
 Proof.
   induction c as [|o c IH]; intro s; [reflexivity|].
   cbn [run_from oracle_from]. unfold obs.
-  destruct o as [|k sub seq|k].
+  destruct o as [|k sub seq|k sub seq|k].
   - rewrite dec_enc. rewrite <- (app_nil_r (pending s)) at 2. rewrite remove_all_self.
     apply (IH (step s Start)).
   - rewrite dec_enc. cbn [step]. destruct (inflight s) as [|a l] eqn:E.
     + rewrite ms_eqb_refl. cbn [andb]. specialize (IH s). rewrite E in IH. exact IH.
     + cbn [pending]. rewrite ms_eqb_refl. cbn [andb].
       specialize (IH (step s (RespOk k sub seq))). cbn [step] in IH. rewrite E in IH. exact IH.
+  - rewrite dec_enc. cbn [step]. destruct (inflight s) as [|a l] eqn:E.
+    + rewrite ms_eqb_refl. cbn [andb]. specialize (IH s). rewrite E in IH. exact IH.
+    + cbn [pending]. rewrite ms_eqb_refl. cbn [andb].
+      specialize (IH (step s (RespOkBad k sub seq))). cbn [step] in IH. rewrite E in IH. exact IH.
   - rewrite dec_enc. cbn [step]. destruct (inflight s) as [|a l] eqn:E.
     + rewrite ms_eqb_refl. cbn [andb]. specialize (IH s). rewrite E in IH. exact IH.
     + cbn [pending]. rewrite ms_eqb_refl. cbn [andb].
@@ -112,11 +116,20 @@ Ltac count_tac z :=
 
 Lemma step_inv s o : Inv s -> Inv (step s o).
 Proof.
-  unfold Inv. intro H. destruct o as [|k sub seq|k]; cbn [step].
+  unfold Inv. intro H. destruct o as [|k sub seq|k sub seq|k]; cbn [step].
   - cbn [sent_ok inflight pending received].
     apply (proj2 (Permutation_count_occ adec _ _)). intro z.
     pose proof (proj1 (Permutation_count_occ adec _ _) H z) as Hz.
     repeat rewrite count_occ_app in Hz. count_tac z.
+  - destruct (inflight s) as [|a l] eqn:E; [rewrite E; exact H|].
+    cbn [sent_ok inflight pending received]. rewrite <- E in *.
+    set (i := pick k (length (inflight s))).
+    assert (Hi : (i < length (inflight s))%nat) by (apply pick_lt; rewrite E; cbn; lia).
+    pose proof (nth_remove_nth_perm [] (inflight s) i Hi) as Hn.
+    apply (proj2 (Permutation_count_occ adec _ _)). intro z.
+    pose proof (proj1 (Permutation_count_occ adec _ _) H z) as Hz.
+    pose proof (proj1 (Permutation_count_occ adec _ _) Hn z) as Hnz.
+    repeat rewrite count_occ_app in Hz. repeat rewrite count_occ_app in Hnz. count_tac z.
   - destruct (inflight s) as [|a l] eqn:E; [rewrite E; exact H|].
     cbn [sent_ok inflight pending received]. rewrite <- E in *.
     set (i := pick k (length (inflight s))).
